@@ -112,3 +112,129 @@ def view (w : World) (p : Nat) : Nat × Nat × Nat :=
   | none => (0, 0, 0)
 
 end Halo
+
+namespace Halo
+
+/-! ### the swaps an operation performs (C01 / C03 at system level) -/
+
+/-- the asset of a pair other than `o` -/
+def PairSt.other (P : PairSt) (o : Asset) : Asset := if o = P.a0 then P.a1 else P.a0
+
+/-- pricing inputs `(pair, x, y, a)` — offer reserve net of the offer, ask reserve, offer amount — of the
+swaps a route performs, hop by hop (mirrors `routerHops`) -/
+def hopTrace (w : World) (rcv : Nat) : List (Asset × Asset) → List (Nat × Nat × Nat × Nat)
+  | [] => []
+  | (o, a) :: rest =>
+    match facLookup w o a with
+    | none => []
+    | some R =>
+      match w.pair R.pair with
+      | none => []
+      | some P =>
+        let t := (R.pair, bal w o R.pair, bal w (P.other o) R.pair, bal w o w.router)
+        match routerHop w w.router o a (if rest.isEmpty then some rcv else none) with
+        | .ok w' => t :: hopTrace w' rcv rest
+        | .error _ => [t]
+
+/-- pricing inputs of every swap an operation performs, in order (mirrors `exec`) -/
+def swapsOn (w : World) : Op → List (Nat × Nat × Nat × Nat)
+  | .pair s p funds (.swap offer amt _ _ _) =>
+    (match attach w s p funds, w.pair p with
+     | .ok w0, some P => [(p, bal w0 offer p - amt, bal w0 (P.other offer) p, amt)]
+     | _, _ => [])
+  | .pair s p funds (.receive _ amount (.swap offer _ _ _ _)) =>
+    (match attach w s p funds, w.pair p with
+     | .ok w0, some P => [(p, bal w0 offer p - amount, bal w0 (P.other offer) p, amount)]
+     | _, _ => [])
+  | .tokSend t s d amt (.swap offer _ _ _ _) =>
+    (match w.pair d with
+     | some P => [(d, bal w offer d, bal w (P.other offer) d, amt)]
+     | none => [])
+  | .tokSend t s d amt (.routerOps ops _ to) =>
+    if (w.pair d).isNone ∧ d = w.router then
+      (match tokTransfer w t s d amt with
+       | .ok w0 => hopTrace w0 (to.getD s) ops
+       | .error _ => [])
+    else []
+  | .router s funds (.swapOps ops _ to) =>
+    (match attach w s w.router funds with
+     | .ok w0 => hopTrace w0 (to.getD s) ops
+     | .error _ => [])
+  | .router s funds (.receive from_ _ (.routerOps ops _ to)) =>
+    (match attach w s w.router funds with
+     | .ok w0 => hopTrace w0 (to.getD from_) ops
+     | .error _ => [])
+  | .router s funds (.swapOp o a to) =>
+    (match attach w s w.router funds with
+     | .ok w0 => hopTrace w0 (to.getD s) [(o, a)]
+     | .error _ => [])
+  | _ => []
+
+/-- the operation performs a swap on pair `p` whose pricing inputs lie in the window of defect D1 -/
+def WindowedOn (w : World) (op : Op) (p : Nat) : Prop :=
+  ∃ t ∈ swapsOn w op, t.1 = p ∧ inWindow t.2.1 t.2.2.1 t.2.2.2 = true
+
+/-- an actor is an account that is none of the system's contracts -/
+def IsActor (w : World) (s : Nat) : Prop :=
+  (w.pair s).isNone ∧ (w.tok s).isNone ∧ s ≠ w.router ∧ s ≠ w.facAddr
+
+/-- the funds of a message carry each denom at most once (the chain validates `Coins`) -/
+def fundsOf : Op → List (Nat × Nat)
+  | .pair _ _ f _ => f
+  | .router _ f _ => f
+  | .factory _ f _ => f
+  | .bankSend _ _ cs => cs
+  | _ => []
+
+/-- an operation as an external actor can submit it -/
+structure ValidOp (w : World) (op : Op) : Prop where
+  actor : IsActor w (actorOf op)
+  fresh : FreshOK w op
+  coins : ((fundsOf op).map (·.1)).Nodup
+
+end Halo
+
+namespace Halo
+
+/-- what C03 needs of a pair `p` over assets `a0`, `a1` with LP token `lp`, in inductive form:
+the pair exists with those assets and LP token (decimals may change); the assets are distinct and are not
+the LP token; the LP token is a live cw20 minted only by the pair, with balances summing to at most its
+supply (cw20 conservation) and — once the supply is positive — the reserved unit held by the LP token's own
+address; the addresses involved are distinct contracts -/
+structure PairInv (w : World) (p : Nat) (a0 a1 : Asset) (lp : Nat) : Prop where
+  pair : ∃ P, w.pair p = some P ∧ P.a0 = a0 ∧ P.a1 = a1 ∧ P.lp = lp
+  distinct : a0 ≠ a1
+  notLp0 : a0 ≠ .token lp
+  notLp1 : a1 ≠ .token lp
+  lpLive : ∃ T, w.tok lp = some T ∧ T.minter = some p
+  live0 : ∀ t, a0 = .token t → (w.tok t).isSome
+  live1 : ∀ t, a1 = .token t → (w.tok t).isSome
+  sumOK : TokSumOK w lp
+  reserved : 0 < supply w lp → 1 ≤ bal w (.token lp) lp
+  lpNoPair : (w.pair lp).isNone
+  lpNotRouter : lp ≠ w.router
+  pNotRouter : p ≠ w.router
+
+/-- the view of a pair through its (fixed) assets and LP token -/
+def viewOf (w : World) (p : Nat) (a0 a1 : Asset) (lp : Nat) : Nat × Nat × Nat :=
+  (bal w a0 p, bal w a1 p, supply w lp)
+
+/-- every step of a history is submitted by an external actor -/
+def ValidRun (name : Asset → String) : World → List Op → Prop
+  | _, [] => True
+  | w, op :: rest => ValidOp w op ∧ ValidRun name (step name w op) rest
+
+/-- no step of a history performs an in-window swap on pair `p` -/
+def NoWindowRun (name : Asset → String) (p : Nat) : World → List Op → Prop
+  | _, [] => True
+  | w, op :: rest => ¬ WindowedOn w op p ∧ NoWindowRun name p (step name w op) rest
+
+/-- the operations that are swaps: direct, through a cw20 hook, or through the router (both entry points) -/
+def IsSwapOp : Op → Prop
+  | .pair _ _ _ (.swap ..) => True
+  | .tokSend _ _ _ _ (.swap ..) => True
+  | .tokSend _ _ _ _ (.routerOps ..) => True
+  | .router _ _ (.swapOps ..) => True
+  | _ => False
+
+end Halo
